@@ -11,7 +11,11 @@ import runner
 
 TRUSTED = ['correspondence: harness/props/c19.py (scripted proxy socket, `_connect_sock` / `_wrap_socket` stubs, canonical log)',
            'harness/translate.py (separator and max_bytes of ProxyParser.parse)',
-           'the classification of ConnectFail reasons into kinds (regexes over the reason text)']
+           'the classification of ConnectFail reasons into kinds (regexes over the reason text)',
+           'composed connections: harness/linkworld.py (simulated socket module; `recv` on a silent proxy raises socket.timeout when the socket has a '
+           'timeout and never returns - outcome HUNG - when settimeout(None) was called before; the model is given the code shape found by the probe '
+           '`linkworld.blocks_before_tunnel()` of the real `_connect`, theorems Properties/C19_Timeout.lean; the source fact behind the pinned shape is '
+           'proved separately: C19Timeout.source_has_pinned_order)']
 ASSUMPTIONS = ['URLs are printable ASCII without brackets in the netloc (IPv6 literals and non-ASCII hosts are outside the urlparse model)',
                '`_connect_sock` and `_wrap_socket` are parameters (their outcome is scripted); the OS / OpenSSL are not modelled',
                'an exhausted read script stands for recv() blocking until the 30 s socket timeout (socket.timeout)',
@@ -758,6 +762,7 @@ def replay(rp):
         import linkworld
         print('real: ' + linkworld.run_link_safe(case['case']))
         print('model line: ' + linkworld.link_line(case['case']))
+        print('socket in blocking mode before the proxy negotiation (probe): %s' % linkworld.blocks_before_tunnel())
         return 0
     out = real_one(case)
     print('case   :', json.dumps({k: v for k, v in case.items() if k != 'meta'})[:2000])
